@@ -70,7 +70,7 @@ package avro
 //@   ensures [C17,C02,C13] len(w.buf) == len(b0) + uvlen(zz(v))
 //@   ensures [C17,C02,C13] forall k int :: 0 <= k && k < len(b0) ==> w.buf[k] == old(b0[k])
 //@   ensures [C17,C02,C13] forall j int :: 0 <= j && j < uvlen(zz(v)) ==> w.buf[len(b0)+j] == uvbyte(zz(v), j)
-//@   ensures base(w.buf) == old(base(w.buf)) || newobj(w.buf)
+//@   ensures (base(w.buf) == old(base(w.buf)) || (newobj(w.buf) && !cowned(w.buf))) && off(w.buf) == old(off(w.buf))
 //@   modifies w.buf, BH[w.buf]
 //@   emits V(v)
 
@@ -79,7 +79,7 @@ package avro
 //@   requires w != nil
 //@   ensures [C17,C02,C13] len(w.buf) == len(b0) + 1 && w.buf[len(b0)] == val
 //@   ensures [C17,C02,C13] forall k int :: 0 <= k && k < len(b0) ==> w.buf[k] == old(b0[k])
-//@   ensures base(w.buf) == old(base(w.buf)) || newobj(w.buf)
+//@   ensures (base(w.buf) == old(base(w.buf)) || (newobj(w.buf) && !cowned(w.buf))) && off(w.buf) == old(off(w.buf))
 //@   modifies w.buf, BH[w.buf]
 //@   emits B(val)
 
@@ -89,7 +89,7 @@ package avro
 //@   ensures [C17,C02,C13] len(w.buf) == len(b0) + len(val)
 //@   ensures [C17,C02,C13] forall k int :: 0 <= k && k < len(b0) ==> w.buf[k] == old(b0[k])
 //@   ensures [C17,C02,C13] forall j int :: 0 <= j && j < len(val) ==> w.buf[len(b0)+j] == old(val[j])
-//@   ensures base(w.buf) == old(base(w.buf)) || newobj(w.buf)
+//@   ensures (base(w.buf) == old(base(w.buf)) || (newobj(w.buf) && !cowned(w.buf))) && off(w.buf) == old(off(w.buf))
 //@   modifies w.buf, BH[w.buf]
 //@   emits W(len(val))
 
@@ -122,9 +122,10 @@ package avro
 //@   ensures [C17,C13,C02] forall k int :: 0 <= k && k < len(b0) ==> w.buf[k] == old(b0[k])
 //@   ensures [C17,C13,C02] forall j int :: 0 <= j && j < uvlen(zz(v)) ==> w.buf[len(b0)+j] == uvbyte(zz(v), j)
 //@   ensures [C13,C02] tlen() == 1 && tkind(0) == evV && ta(0) == uint64(v)
-//@   ensures base(w.buf) == old(base(w.buf)) || newobj(w.buf)
+//@   ensures (base(w.buf) == old(base(w.buf)) || (newobj(w.buf) && !cowned(w.buf))) && off(w.buf) == old(off(w.buf))
 //@   modifies w.buf, BH[w.buf]
 //@   emits V(v)
+//@   exactemits
 
 // ---------------------------------------------------------------- fixed.go
 
@@ -155,9 +156,10 @@ package avro
 //@   ensures [C17,C13,C02] forall k int :: 0 <= k && k < len(b0) ==> w.buf[k] == old(b0[k])
 //@   ensures [C17,C13,C02] forall j int :: 0 <= j && j < rc.Size ==> w.buf[len(b0)+j] == mem8(uintptr(p) + uintptr(j))
 //@   ensures [C13,C02] tlen() == 1 && tkind(0) == evW && ta(0) == uint64(rc.Size)
-//@   ensures base(w.buf) == old(base(w.buf)) || newobj(w.buf)
+//@   ensures (base(w.buf) == old(base(w.buf)) || (newobj(w.buf) && !cowned(w.buf))) && off(w.buf) == old(off(w.buf))
 //@   modifies w.buf, BH[w.buf]
 //@   emits W(rc.Size)
+//@   exactemits
 
 // ---------------------------------------------------------------- float.go
 
@@ -187,9 +189,10 @@ package avro
 //@   ensures [C17,C13,C02] forall k int :: 0 <= k && k < len(b0) ==> w.buf[k] == old(b0[k])
 //@   ensures [C17,C13,C02] lebytes(w.buf, len(b0), sizeof(T)) == memuint(p, sizeof(T))
 //@   ensures [C13,C02] tlen() == 1 && tkind(0) == evW && ta(0) == sizeof(T)
-//@   ensures base(w.buf) == old(base(w.buf)) || newobj(w.buf)
+//@   ensures (base(w.buf) == old(base(w.buf)) || (newobj(w.buf) && !cowned(w.buf))) && off(w.buf) == old(off(w.buf))
 //@   modifies w.buf, BH[w.buf]
 //@   emits W(sizeof(T))
+//@   exactemits
 
 //@ func (Float32DoubleCodec).Read
 //@   implements Codec.Read
@@ -210,7 +213,7 @@ package avro
 //@   ensures [C17,C13,C02] forall k int :: 0 <= k && k < len(b0) ==> w.buf[k] == old(b0[k])
 //@   ensures [C17,C13,C02] !isnan(x) ==> le64(w.buf, len(b0)) == to64(x)
 //@   ensures [C17,C13,C02] isnan(x) ==> isnan(le64(w.buf, len(b0)))
-//@   ensures base(w.buf) == old(base(w.buf)) || newobj(w.buf)
+//@   ensures (base(w.buf) == old(base(w.buf)) || (newobj(w.buf) && !cowned(w.buf))) && off(w.buf) == old(off(w.buf))
 //@   modifies w.buf, BH[w.buf]
 
 // ---------------------------------------------------------------- bool.go
@@ -240,9 +243,10 @@ package avro
 //@   ensures [C17,C13,C02] len(w.buf) == len(b0) + 1 && w.buf[len(b0)] == (mem8(p) != 0 ? 1 : 0)
 //@   ensures [C17,C13,C02] forall k int :: 0 <= k && k < len(b0) ==> w.buf[k] == old(b0[k])
 //@   ensures [C13,C02] tlen() == 1 && tkind(0) == evB
-//@   ensures base(w.buf) == old(base(w.buf)) || newobj(w.buf)
+//@   ensures (base(w.buf) == old(base(w.buf)) || (newobj(w.buf) && !cowned(w.buf))) && off(w.buf) == old(off(w.buf))
 //@   modifies w.buf, BH[w.buf]
 //@   emits B(mem8(p) != 0 ? 1 : 0)
+//@   exactemits
 
 // ---------------------------------------------------------------- buffer.go: string bank (functional part; C10 adds the bank invariant)
 
@@ -294,10 +298,11 @@ package avro
 //@   ensures [C13,C02,C17] forall j int :: 0 <= j && j < uvlen(zz(int64(len(s)))) ==> w.buf[len(b0)+j] == uvbyte(zz(int64(len(s))), j)
 //@   ensures [C13,C02,C17] (len(s) == 0 || base(s) != base(b0)) ==> forall j int :: 0 <= j && j < len(s) ==> w.buf[len(b0)+uvlen(zz(int64(len(s))))+j] == old(s[j])
 //@   ensures [C13,C02] tlen() == 2 && tkind(0) == evV && ta(0) == uint64(len(s)) && tkind(1) == evW && ta(1) == uint64(len(s))
-//@   ensures base(w.buf) == old(base(w.buf)) || newobj(w.buf)
+//@   ensures (base(w.buf) == old(base(w.buf)) || (newobj(w.buf) && !cowned(w.buf))) && off(w.buf) == old(off(w.buf))
 //@   modifies w.buf, BH[w.buf]
 //@   emits V(len(s))
 //@   emits W(len(s))
+//@   exactemits
 
 //@ func (StringCodec).Read
 //@   implements Codec.Read
@@ -326,10 +331,11 @@ package avro
 //@   ensures [C13,C02,C17] forall j int :: 0 <= j && j < uvlen(zz(int64(len(s)))) ==> w.buf[len(b0)+j] == uvbyte(zz(int64(len(s))), j)
 //@   ensures [C13,C02,C17] (len(s) == 0 || base(s) != base(b0)) ==> forall j int :: 0 <= j && j < len(s) ==> w.buf[len(b0)+uvlen(zz(int64(len(s))))+j] == old(s[j])
 //@   ensures [C13,C02] tlen() == 2 && tkind(0) == evV && ta(0) == uint64(len(s)) && tkind(1) == evW && ta(1) == uint64(len(s))
-//@   ensures base(w.buf) == old(base(w.buf)) || newobj(w.buf)
+//@   ensures (base(w.buf) == old(base(w.buf)) || (newobj(w.buf) && !cowned(w.buf))) && off(w.buf) == old(off(w.buf))
 //@   modifies w.buf, BH[w.buf]
 //@   emits V(len(s))
 //@   emits W(len(s))
+//@   exactemits
 
 // ================================================================ the Codec interface contract
 //
@@ -372,7 +378,7 @@ package avro
 //@   let b0 := w.buf
 //@   requires w != nil && this != nil && wfc(this) && wfval(this, p)
 //@   ensures [C02,C13,C09] len(b0) <= len(w.buf) && forall k int :: 0 <= k && k < len(b0) ==> w.buf[k] == old(b0[k])
-//@   ensures [C02,C13,C09] base(w.buf) == old(base(w.buf)) || newobj(w.buf)
+//@   ensures [C02,C13,C09] base(w.buf) == old(base(w.buf)) || (newobj(w.buf) && !cowned(w.buf))
 //@   modifies w.buf, BH[w.buf]
 //@   emits CW(this, p)
 
@@ -420,7 +426,7 @@ package avro
 //@   requires w != nil && wfc(asiface(u)) && wfval(u.codec, p)
 //@   ensures [C13,C02] omitv(u.codec, p) ==> tlen() == 1 && tkind(0) == evV && ta(0) == 1 - uint64(u.nonNull)
 //@   ensures [C13,C02] !omitv(u.codec, p) ==> tlen() == 2 && tkind(0) == evV && ta(0) == uint64(u.nonNull) && tkind(1) == evCW && ta(1) == tag(u.codec) && tb(1) == uint64(data(u.codec)) && tc(1) == uint64(p)
-//@   ensures base(w.buf) == old(base(w.buf)) || newobj(w.buf)
+//@   ensures (base(w.buf) == old(base(w.buf)) || (newobj(w.buf) && !cowned(w.buf))) && off(w.buf) == old(off(w.buf))
 //@   modifies w.buf, BH[w.buf]
 
 //@ func (*unionNullString).Read
@@ -446,7 +452,7 @@ package avro
 //@   requires w != nil && u != nil && u.nonNull <= 1 && rdable(p, 16) && wfslice(s)
 //@   ensures [C13,C02] om ==> tlen() == 1 && tkind(0) == evV && ta(0) == 1 - uint64(u.nonNull)
 //@   ensures [C13,C02] !om ==> tlen() == 3 && tkind(0) == evV && ta(0) == uint64(u.nonNull) && tkind(1) == evV && ta(1) == uint64(len(s)) && tkind(2) == evW && ta(2) == uint64(len(s))
-//@   ensures base(w.buf) == old(base(w.buf)) || newobj(w.buf)
+//@   ensures (base(w.buf) == old(base(w.buf)) || (newobj(w.buf) && !cowned(w.buf))) && off(w.buf) == old(off(w.buf))
 //@   modifies w.buf, BH[w.buf]
 
 //@ func (StringCodec).Omit
@@ -488,7 +494,7 @@ package avro
 //@   requires w != nil && wfc(asiface(c)) && wfval(asiface(c), p)
 //@   ensures [C13,C02] mem64(p) == 0 ==> tlen() == 0 && w.buf == old(w.buf)
 //@   ensures [C13,C02] mem64(p) != 0 ==> tlen() == 1 && tkind(0) == evCW && ta(0) == tag(c.Codec) && tb(0) == uint64(data(c.Codec)) && tc(0) == mem64(p)
-//@   ensures base(w.buf) == old(base(w.buf)) || newobj(w.buf)
+//@   ensures (base(w.buf) == old(base(w.buf)) || (newobj(w.buf) && !cowned(w.buf))) && off(w.buf) == old(off(w.buf))
 //@   modifies w.buf, BH[w.buf]
 
 // ---------------------------------------------------------------- record.go (Avro: a record is the concatenation of its fields' encodings in schema order)
@@ -542,3 +548,123 @@ package avro
 //@   loop 1 invariant tlen() == rangeindex + 1 && forall k int :: 0 <= k && k <= rangeindex ==> tkind(k) == evCW && ta(k) == tag(rc.fields[k].codec) && tb(k) == uint64(data(rc.fields[k].codec)) && tc(k) == uint64(p) + uint64(rc.fields[k].offset)
 //@   loop 1 invariant w != nil && len(b0) <= len(w.buf) && (forall k int :: 0 <= k && k < len(b0) ==> w.buf[k] == old(b0[k])) && (base(w.buf) == old(base(w.buf)) || newobj(w.buf)) && bhframe(b0)
 //@   loop 1 decreases len(rc.fields) - rangeindex
+
+// ================================================================ filewriter.go / encoder.go (C09, C16, C02)
+//
+// Avro object container file, data block: long count of objects, long size in bytes of the serialized (compressed)
+// objects, the serialized objects, the file's 16-byte sync marker.
+
+// compressors keep private buffers (ghost predicate cowned); everything else allocated before the call is untouched
+//@ iface compressionCodec.compress
+//@   requires this != nil
+//@   ensures [C09,C16,C02] bhframe_unowned()
+//@   modifies BH, type deflate, type snappyCodec
+
+//@ spec wfFW(f ptr) bool = f != nil && f.compressor != nil
+
+//@ func (*FileWriter).writeVarInt
+//@   let u := zz(int64(v))
+//@   requires f != nil && w != nil
+//@   ensures [C09,C16,C02] tlen() == 1 && tkind(0) == evOUT && ta(0) == tag(w) && tb(0) == uint64(data(w)) && te(0) == tag(err) && tf(0) == uint64(data(err))
+//@   ensures [C09,C02] len(tbytes(0)) == uvlen(u) && forall j int :: 0 <= j && j < uvlen(u) ==> tbytes(0)[j] == uvbyte(u, j)
+//@   ensures [C09,C02] forall j int :: 0 <= j && j < uvlen(u) ==> f.varintBuf[j] == uvbyte(u, j)
+//@   modifies BH[f.varintBuf]
+//@   emits OUT(w, sub(f.varintBuf, 0, uvlen(u)), err)
+
+// all writes but the last succeeded; success means all four were made
+//@ spec outsOK(n int) bool = forall i int :: 0 <= i && i < n ==> tkind(i) == evOUT && te(i) == 0
+
+//@ func (*FileWriter).WriteBlock
+//@   let sync0 := f.sync
+//@   requires wfFW(f) && w != nil && !cowned(block) && base(block) != base(sub(f.varintBuf, 0, 0)) && base(block) != base(sub(f.sync, 0, 0))
+//@   ensures [C09,C16] tlen() <= 4 && forall i int :: 0 <= i && i < tlen() ==> tkind(i) == evOUT && ta(i) == tag(w) && tb(i) == uint64(data(w))
+//@   ensures [C16] forall i int :: 0 <= i && i < tlen() - 1 ==> te(i) == 0
+//@   ensures [C09,C16] err == nil ==> tlen() == 4 && te(3) == 0
+//@   ensures [C16] err != nil && tlen() > 0 && te(tlen()-1) != 0 ==> wraps(err, ifaceof(te(tlen()-1), tf(tlen()-1)))
+//@   ensures [C16] tlen() > 0 && te(tlen()-1) != 0 ==> err != nil
+//@   ensures [C09,C02] tlen() >= 1 ==> len(tbytes(0)) == uvlen(zz(int64(rowCount))) && forall j int :: 0 <= j && j < len(tbytes(0)) ==> tbytes(0)[j] == uvbyte(zz(int64(rowCount)), j)
+//@   ensures [C09,C02] tlen() >= 3 ==> len(tbytes(1)) == uvlen(zz(int64(len(tbytes(2))))) && forall j int :: 0 <= j && j < len(tbytes(1)) ==> tbytes(1)[j] == uvbyte(zz(int64(len(tbytes(2)))), j)
+//@   ensures [C09,C02] tlen() == 4 ==> len(tbytes(3)) == 16 && forall j int :: 0 <= j && j < 16 ==> tbytes(3)[j] == sync0[j]
+//@   ensures [C09] wfFW(f) && (len(block) == 0 || sameobj(block))
+//@   modifies BH, type deflate, type snappyCodec
+//@   emits WB(w, block, rowCount, err)
+
+//@ spec encInv(e ptr) bool = e != nil && e.wb != nil && e.fw != nil && e.codec != nil && wfc(e.codec) && e.w != nil && wfFW(e.fw) \
+//@      && 0 <= e.count && e.count < 1<<62 && (e.count == 0 ==> len(e.wb.buf) == 0) && !cowned(e.wb.buf) \
+//@      && base(e.wb.buf) != base(sub(e.fw.varintBuf, 0, 0)) && base(e.wb.buf) != base(sub(e.fw.sync, 0, 0))
+
+//@ func (*Encoder[T]).Flush
+//@   let c0 := e.count, b0 := e.wb.buf
+//@   requires encInv(e)
+//@   ensures [C09] c0 == 0 ==> tlen() == 0 && err == nil && e.count == 0 && e.wb.buf == b0
+//@   ensures [C09,C16] c0 > 0 ==> tlen() == 1 && tkind(0) == evWB && ta(0) == tag(e.w) && tb(0) == uint64(data(e.w)) && te(0) == uint64(c0) \
+//@        && len(tbytes(0)) == len(b0) && (forall j int :: 0 <= j && j < len(b0) ==> tbytes(0)[j] == old(b0[j]))
+//@   ensures [C09] c0 > 0 && err == nil ==> tf(0) == 0
+//@   ensures [C09] c0 > 0 && err == nil ==> e.count == 0 && len(e.wb.buf) == 0
+//@   ensures [C16] c0 > 0 && tf(0) != 0 ==> err != nil && wraps(err, ifaceof(tf(0), tg(0)))
+//@   ensures [C16] err != nil ==> c0 > 0 && tf(0) != 0
+//@   ensures [C16] err != nil ==> c0 > 0 && e.count == c0
+//@   ensures [C09,C16] encInv(e)
+//@   modifies e.count, e.wb.buf, BH, type deflate, type snappyCodec
+//@   emits FL(e, c0, err)
+
+//@ func (*Encoder[T]).Encode
+//@   let c0 := e.count
+//@   requires encInv(e) && wfval(e.codec, v) && e.count < (1<<62) - 1
+//@   ensures [C09] tlen() >= 1 && tkind(0) == evCW && ta(0) == tag(e.codec) && tb(0) == uint64(data(e.codec)) && tc(0) == uint64(v)
+//@   ensures [C09] tlen() <= 2 && (tlen() == 2 ==> tkind(1) == evFL && ta(1) == uint64(e) && tb(1) == uint64(c0 + 1))
+//@   ensures [C09] err == nil && tlen() == 1 ==> e.count == c0 + 1 && len(e.wb.buf) < e.approxBlockSize
+//@   ensures [C09] err == nil && tlen() == 2 ==> e.count == 0 && len(e.wb.buf) == 0
+//@   ensures [C16] tlen() == 2 && tc(1) != 0 ==> err != nil && wraps(err, ifaceof(tc(1), td(1)))
+//@   ensures [C16] err != nil ==> tlen() == 2 && tc(1) != 0
+//@   ensures [C09,C16] encInv(e)
+//@   modifies e.count, e.wb.buf, BH, type deflate, type snappyCodec
+
+// Avro object container file header: magic 'O','b','j',1; file metadata (a map of string to bytes, here one block of two
+// entries: avro.schema and avro.codec); the 16-byte sync marker.
+//@ global FileMagic[0] == 79 && FileMagic[1] == 98 && FileMagic[2] == 106 && FileMagic[3] == 1
+
+// a length-prefixed string/bytes value at offset o of b: zig-zag varint length, then the bytes
+//@ spec lpAt(b bytes, o int, n int) bool = forall j int :: 0 <= j && j < uvlen(zz(int64(n))) ==> b[o+j] == uvbyte(zz(int64(n)), j)
+
+//@ func appendString
+//@   let b0 := buf, n := len(s), vl := uvlen(zz(int64(len(s))))
+//@   requires len(s) < 1<<40
+//@   ensures [C02,C16,C09] len(res) == len(b0) + vl + n
+//@   ensures [C02,C16,C09] forall k int :: 0 <= k && k < len(b0) ==> res[k] == old(b0[k])
+//@   ensures [C02] lpAt(res, len(b0), n)
+//@   ensures [C02] (n == 0 || base(s) != base(b0)) ==> forall j int :: 0 <= j && j < n ==> res[len(b0)+vl+j] == old(s[j])
+//@   ensures (base(res) == base(b0) || (newobj(res) && !cowned(res))) && off(res) == off(b0)
+//@   modifies BH[buf]
+//@   emits W(old(s))
+
+//@ func (*FileWriter).AppendHeader
+//@   let b0 := buf, L := len(buf), sl := len(f.schema), cl := len(f.compression), \
+//@       tot := len(buf) + 17 + uvlen(zz(int64(len(f.schema)))) + len(f.schema) + 11 + uvlen(zz(int64(len(f.compression)))) + len(f.compression) + 17
+//@   requires f != nil && len(f.schema) < 1<<40 && len(f.compression) < 1<<40 && base(buf) != base(sub(f.sync, 0, 0)) \
+//@      && (len(f.schema) == 0 || base(f.schema) != base(buf)) && (len(f.compression) == 0 || base(f.compression) != base(buf))
+//@   ensures [C02] len(res) == tot
+//@   ensures [C02,C16] forall k int :: 0 <= k && k < L ==> res[k] == old(b0[k])
+//     magic and the block count of the metadata map (one block of two entries: zig-zag(2) = 4)
+//@   ensures [C02] res[L] == 79 && res[L+1] == 98 && res[L+2] == 106 && res[L+3] == 1 && res[L+4] == 4
+//     end of the metadata map (count 0) and the 16-byte sync marker
+//@   ensures [C02] res[tot-17] == 0 && forall j int :: 0 <= j && j < 16 ==> res[tot - 16 + j] == old(f.sync[j])
+//     the metadata entries, in order, as the calls that write them (each callee's byte-level contract is verified separately)
+//@   ensures [C02] tlen() == 6 && tkind(0) == evV && ta(0) == 2 && tkind(1) == evW && tkind(2) == evW && tkind(3) == evW && tkind(4) == evW && tkind(5) == evV && ta(5) == 0
+//@   ensures [C02] streq(tbytes(1, a, b), "avro.schema") && samebytes(tbytes(2, a, b), old(f.schema)) && streq(tbytes(3, a, b), "avro.codec") && samebytes(tbytes(4, a, b), old(f.compression))
+//@   ensures (base(res) == base(b0) || (newobj(res) && !cowned(res))) && off(res) == off(b0)
+//@   modifies BH[buf]
+//@   after 1-7 assert (forall k int :: 0 <= k && k < L ==> buf[k] == old(b0[k])) && off(buf) == off(b0) && (base(buf) == base(b0) || (newobj(buf) && !cowned(buf))) && bhframe(b0)
+//@   after 1-7 assert len(buf) >= L + 4 && buf[L] == 79 && buf[L+1] == 98 && buf[L+2] == 106 && buf[L+3] == 1
+//@   after 2-7 assert len(buf) >= L + 5 && buf[L+4] == 4
+//@   after 3 assert len(buf) == L + 17
+//@   after 4 assert len(buf) == L + 17 + uvlen(zz(int64(sl))) + sl
+//@   after 5 assert len(buf) == L + 17 + uvlen(zz(int64(sl))) + sl + 11
+//@   after 6 assert len(buf) == tot - 17
+//@   after 7 assert len(buf) == tot - 16 && buf[tot-17] == 0
+
+//@ func (*FileWriter).WriteHeader
+//@   requires f != nil && w != nil && len(f.schema) < 1<<40 && len(f.compression) < 1<<40
+//@   ensures [C16,C02] tlen() == 1 && tkind(0) == evOUT && ta(0) == tag(w) && tb(0) == uint64(data(w)) && res == ifaceof(te(0), tf(0))
+//@   modifies BH
+//@   emits HDR(w, res)
